@@ -93,6 +93,8 @@ class C18(Prop):
                 y[k] = []
                 for h in v:
                     w = relabel(h, sigma); rng.shuffle(w); y[k].append(w)
+                if k == "opp":
+                    rng.shuffle(y[k])       # the knocker's melds may be listed in any order (seats, for `hands`, may not)
             else:
                 y[k] = v
         return y
@@ -114,6 +116,22 @@ class C18(Prop):
         if kind == "split":
             return {"hand": gin.dense_cards(rng, rng.choice([10, 11, 7]))}
         if kind == "layoff":
+            if rng.random() < 0.25:
+                # two knocker runs of one suit with a one-card gap, the defender holds the gap card (it extends the lower run
+                # upwards and the upper run downwards), plus the card beyond one of the far ends
+                s = rng.choice(gin.SU); r = rng.randrange(4, 10)
+                c = lambda v: gin.R[v] + s
+                lo_run = [c(r - 3), c(r - 2), c(r - 1)]; hi_run = [c(r + 1), c(r + 2), c(r + 3)]
+                third_rank = rng.choice([x for x in "A23456789TJQK" if gin.RV[x] not in range(r - 4, r + 5)] or ["K"])
+                third = [third_rank + su for su in gin.SU if su != s][:3]
+                opp = [lo_run, hi_run, third]
+                rng.shuffle(opp)
+                used = set(lo_run + hi_run + third)
+                hand = [c(r)] + ([c(r + 4)] if r + 4 <= 13 and rng.random() < 0.5 else []) + ([c(r - 4)] if r - 4 >= 1 and rng.random() < 0.5 else [])
+                pool = [x for x in gin.CARDS if x not in used and x not in hand]
+                hand = hand + rng.sample(pool, 10 - len(hand))
+                rng.shuffle(hand)
+                return {"hand": hand, "opp": opp}
             for _ in range(50):
                 ranks = rng.sample("A23456789TJQK", rng.choice([5, 6, 7]))
                 sub = [r + s for r in ranks for s in gin.SU]
